@@ -624,6 +624,7 @@ func runC09(c *Check) {
 	c.Rule("R9.7", "explicit panics reachable from the stream handler (under RecoveryMiddleware)")
 	// the serving path reads every block through the proofs-caching wrapper
 	c05ProofsCache(c, "R9.8")
+	defer c09AccessorOutlivesCopy(c)
 	h := p.Func("share/shwap/p2p/shrex", "Server", "handleDataRequest")
 	if h == nil {
 		c.Unresolved("R9.1", "handleDataRequest not found")
